@@ -128,7 +128,7 @@ def load_known():
 # (equivalent) shape it may not recognise the construct or may mis-read it.  Its verdict therefore counts only when the
 # deciding rule does not hold either: if the deciding rule evaluates the current source and finds the behaviour right,
 # reports and "not recognised" errors of the diagnostic rule are downgraded to notes.
-DIAGNOSTIC = {"F1": "FM", "F4": "FM", "G4": "R14", "R08": "R14", "R11u": "R14", "A1": "AM", "A2": "AM", "A3": "AM", "A4": "AM", "A5": "AM", "A6": "AM", "A7": "AM"}
+DIAGNOSTIC = {"F1": "FM", "F4": "FM", "G4": "R14", "R08": "R14", "R11u": "R14", "A1": "AM", "A2": "AM", "A3": "AM", "A4": "AM", "A5": "AM", "A6": "AM", "A7": "AM", "L3": ("L1", "L2"), "D1": "DG", "D2s": "DG", "D4": "DG"}
 _decided_cache = {}
 
 
@@ -162,8 +162,10 @@ def run_rules(model, prop, tier, only=None):
         except Exception as e:  # checker bug / unsupported construct: analysis error, never a verdict
             tb = traceback.format_exc(limit=6)
             my_errors.append(f"[{rid}] internal error {type(e).__name__}: {e}\n{tb}")
-        if rid in DIAGNOSTIC and (my_errors or any(i.verdict == BAD for i in cx.insts)) and DIAGNOSTIC[rid] in RULES and _decider_clean(model, DIAGNOSTIC[rid], tier):
-            dec = DIAGNOSTIC[rid]
+        decs = DIAGNOSTIC.get(rid)
+        decs = (decs,) if isinstance(decs, str) else decs
+        if decs and (my_errors or any(i.verdict == BAD for i in cx.insts)) and all(d in RULES for d in decs) and all(_decider_clean(model, d, tier) for d in decs):
+            dec = "+".join(decs)
             for i in cx.insts:
                 if i.verdict == BAD:
                     i.verdict = NOTE
